@@ -535,6 +535,11 @@ class Gen:
             if sym == "/":
                 # keep divisors away from zero most of the time
                 b = ("lit", 1 + gen_int(ch)) if not ch.coin(0.1, "div0") else ("lit", 0)
+                if b == ("lit", 0) and not is_lazy_top(a):
+                    # `0 / 0` between plain values is evaluated by Python while the task body
+                    # builds its result (whatever branch it sits in); only a lazy division can
+                    # fail lazily
+                    b = ("lit", 1)
             if ch.coin(0.3, "reverse") and sym not in ("/",):
                 a, b = b, a
             if sym in ("&", "|", "==", "<") and not (is_lazy_top(a) or is_lazy_top(b)):
